@@ -211,8 +211,12 @@ func scenario(nPre, nOps, hist int) {
 	history(db, &rows, hist)
 	before := clone(rows)
 	var ops []ovsdb.Operation
+	transient := false
 	for i := 0; i < nOps; i++ {
 		ops = append(ops, symOp(&rows))
+		if i < nOps-1 && dup(rows) {
+			transient = true
+		}
 	}
 	res := run(db, ops...)
 	rt.Reach("ran")
@@ -227,6 +231,16 @@ func scenario(nPre, nOps, hist int) {
 					masked = true
 				}
 			}
+		}
+		if transient && !masked {
+			// Known finding, kept apart: the transaction cache's unique index holds one row per value, so after a
+			// transient duplicate it can lose track of rows that still share the value at the end.
+			rejected := len(res) == nOps+1 && res[nOps] != nil && res[nOps].Error == "constraint violation"
+			rt.Assert(rejected, "C06: a final duplicate is rejected even when the transaction went through a transient duplicate")
+			if rejected {
+				rt.Assert(matches(db, before), "C06: a rejected transaction commits nothing")
+			}
+			return
 		}
 		if masked {
 			rejected := len(res) == nOps+1 && res[nOps] != nil && res[nOps].Error == "constraint violation"
